@@ -425,8 +425,15 @@ func ExtractRule(ctx *Context, fact Map, required bool) (Map, error) {
 			expires, have := fact["expires"]
 			Log(DEBUG, ctx, "ExtractRule", "expires", expires)
 			if have {
-				// ToDo: Probably shouldn't modify given fact this way.
-				vv["expires"] = expires
+				// Don't modify the given fact: it usually is
+				// the stored one, which concurrent readers are
+				// looking at.
+				body := make(map[string]interface{}, len(vv)+1)
+				for p, v := range vv {
+					body[p] = v
+				}
+				body["expires"] = expires
+				return body, nil
 			}
 			return vv, nil
 		default:
